@@ -16,7 +16,10 @@ RULE = ("correspondence: inventories (format v1 and v2) serialised from generate
         "helper models (utf8 decode, rstrip, split, splitlines, posixpath.join, line regex) vs CPython and "
         "from_sphinx/to_sphinx on generated inventories. search: on the implementation directly: result under every "
         "chunking == result with one read; entries == sphinx.util.inventory.InventoryFile.loads on the same bytes; "
-        "to_sphinx/from_sphinx round trip; bad-line isolation. non-trivial = the load yields at least one entry or an "
+        "to_sphinx/from_sphinx round trip; bad-line isolation; inventory_cli([...]) on scratch files in json and yaml format "
+        "(stdout parsed back) = the loaded entries filtered by an independent implementation of the wildcard semantics, and the "
+        "source / base URL taken by inventory_cli and fetch_inventory under a fake urlopen (corr: the same against the extracted "
+        "cli_filter / cli_fetch / fetch_inventory models). non-trivial = the load yields at least one entry or an "
         "exception and the partition has at least two chunks, or (helpers) the input is non-empty")
 TRUSTED = ["coq/InvLoad/{Reader,Load}.v are hand transcriptions of InventoryFileReader/load/_load_v1/_load_v2/from_sphinx/to_sphinx",
            "coq/InvLoad/SphinxInv.v is a hand transcription of sphinx.util.inventory.InventoryFile.loads/_loads_v1/_loads_v2 (Sphinx 8.2.3, modelled external)",
@@ -30,6 +33,8 @@ ORACLES = {
     "O_zlib_oneshot": "zlib.decompress(z) = out implies the streaming decompressor yields out without error (zlib oracle test)",
     "O_decode": "bytes.decode() (strict UTF-8): an ASCII byte is never part of a multi-byte sequence, so decoding commutes with splitting at "
                 "ASCII bytes; checked by the executable Gallina UTF-8 decoder vs bytes.decode on random byte strings (cmd decode)",
+    "O_urlopen": "urllib.request.urlopen / open: what loading from a URL or a path returns (Section variables url_load / file_load of "
+                 "Cli.v); exercised with a fake urlopen serving inventories, garbage or raising URLError, and real scratch files",
     "O_match_line": "re.match of the v2 line regex: an abstract function in the theorems (both loaders use the same literal: Gen.regex_same); the "
                     "executable regex engine on the regenerated AST is compared with re.match on generated and mutated lines (cmd match)",
 }
@@ -774,6 +779,260 @@ def corr_convert(ctx):
             ctx.disagree("to_sphinx" if c["kind"] == "roundtrip" else "from_sphinx", c, repr(e)[:800], repr(got)[:800])
 
 
+# ------------------------------------------------------------------ glue: fetch_inventory / inventory_cli
+
+CLI_PATS = ["*", "py", "p*", "*y", "std", "s*", "*", "function", "*o*", "m*", "a", "a*", "*a*", "\\*", "", "x", "-", "-1", "*1",
+            "*.html*", "a.html*", "*#*", "/abs*", "*$*", "T*", "name*", "* *"]
+
+
+def wild_spec(p, n):
+    """documented wildcard semantics, independently: '*' any run, '\\*' a literal star, anything else itself"""
+    toks, i = [], 0
+    while i < len(p):
+        if p[i] == "\\" and i + 1 < len(p) and p[i + 1] == "*":
+            toks.append(("L", "*")); i += 2
+        elif p[i] == "*":
+            toks.append(("S", None)); i += 1
+        else:
+            toks.append(("L", p[i])); i += 1
+    cur = {0}
+    for kind, ch in toks:
+        if kind == "S":
+            cur = set(range(min(cur), len(n) + 1)) if cur else set()
+        else:
+            cur = {k + 1 for k in cur if k < len(n) and n[k] == ch}
+        if not cur:
+            return False
+    return len(n) in cur
+
+
+class FakeUrlopen:
+    """stands for urllib.request.urlopen: table url -> bytes (served) | Exception instance (raised)"""
+
+    def __init__(self, table):
+        self.table = table
+        self.calls = []
+
+    def __call__(self, url, timeout=None):
+        self.calls.append(url)
+        v = self.table.get(url, OSError("no such url"))
+        if isinstance(v, Exception):
+            raise v
+        return _Ctx(io.BytesIO(v))
+
+
+class _Ctx:
+    def __init__(self, f):
+        self.f = f
+
+    def __enter__(self):
+        return self.f
+
+    def __exit__(self, *a):
+        return False
+
+
+def run_cli(argv, urlopen=None):
+    """inventory_cli(argv) with stdout captured -> ('ok', parsed output) | ('exc', class)"""
+    import contextlib
+    import json as _json
+    import yaml
+    from myst_parser import inventory as I
+    out = io.StringIO()
+    old = I.urlopen
+    if urlopen is not None:
+        I.urlopen = urlopen
+    try:
+        with contextlib.redirect_stdout(out), contextlib.redirect_stderr(io.StringIO()):
+            I.inventory_cli(argv)
+    except SystemExit as e:
+        return ["exc", "SystemExit"]
+    except Exception as e:
+        return ["exc", type(e).__name__]
+    finally:
+        I.urlopen = old
+    text = out.getvalue()
+    fmt = "json" if "json" in argv else "yaml"
+    return ["ok", _json.loads(text) if fmt == "json" else yaml.safe_load(text)]
+
+
+def obs_of_invdict(inv):
+    return observe(lambda: inv)
+
+
+def gen_cli_case(rng):
+    rows = gen_table(rng, n=rng.randint(0, 8), clean=True)
+    data = gen_v2(rng, mutate=False, rows=rows, clean=True) if rng.random() < 0.8 else gen_v1(rng, mutate=False, rows=rows)
+    q = [rng.choice(CLI_PATS[:16]) for _ in range(3)]
+    loc = rng.choice([None, None, ""] + CLI_PATS[19:] + ["*"])
+    return {"kind": "cli", "data": hexs(data), "q": q, "loc": loc, "fmt": rng.choice(["json", "yaml"])}
+
+
+def cli_argv(path, case):
+    argv = [path, "--domain=" + case["q"][0], "--object-type=" + case["q"][1], "--name=" + case["q"][2], "-f", case["fmt"]]
+    if case["loc"] is not None:
+        argv.append("--loc=" + case["loc"])
+    return argv
+
+
+def cli_expected(inv, case):
+    """independent spec: the loaded entries that match the four filters, nested in order of first appearance"""
+    out = {"name": inv["name"], "version": inv["version"], "base_url": None, "objects": {}}
+    for d, ts in inv["objects"].items():
+        for t, es in ts.items():
+            for n, it in es.items():
+                if wild_spec(case["q"][0], d) and wild_spec(case["q"][1], t) and wild_spec(case["q"][2], n) \
+                        and (not case["loc"] or wild_spec(case["loc"], it["loc"])):
+                    out["objects"].setdefault(d, {}).setdefault(t, {})[n] = {"loc": it["loc"], "text": it["text"]}
+    return out
+
+
+def check_cli_case(ctx, case, d):
+    import os
+    from myst_parser import inventory as I
+    data = bytes.fromhex(case["data"])
+    path = os.path.join(d, "objects.inv")
+    with open(path, "wb") as f:
+        f.write(data)
+    try:
+        inv = I.load(io.BytesIO(data))
+    except Exception:
+        return True
+    got = run_cli(cli_argv(path, case))
+    want = cli_expected(inv, case)
+    if got[0] != "ok" or got[1] != want or order_of(got[1]) != order_of(want):
+        ctx.fail("cli:filter", case, "inventory_cli output differs from the loaded entries filtered by the documented wildcard semantics",
+                 expected=repr(want)[:1200], observed=repr(got)[:1200])
+        return False
+    return True
+
+
+FETCH_URIS = ["http://h.org/a/objects.inv", "https://h.org/a", "http://h.org", "https://h.org/a/", "http://h.org/a/b/c.inv"]
+
+
+def gen_fetch_case(rng):
+    return {"kind": "fetch", "uri": rng.choice(FETCH_URIS + ["FILE", "MISSING", "httpx://h.org/x", "HTTP://h.org/a", "http:/h.org/x", "https:x", "http//h", "xhttp://h.org/a"]),
+            "r1": rng.choice(["ok", "exc", "bad"]), "r2": rng.choice(["ok", "exc", "bad"])}
+
+
+def fetch_outcome(case, d):
+    """drive inventory_cli / fetch_inventory through a fake urlopen; returns (cli outcome, fetch outcome, urls opened)"""
+    import os
+    from urllib.error import URLError
+    from myst_parser import inventory as I
+
+    def inv_bytes(tag):
+        return (HDR2 + f"\n# Project: {tag}\n# Version: 1\n" + ZLINE + "\n").encode() + zlib.compress(b"a py:function 1 a.html -\n")
+
+    def served(r, tag):
+        return inv_bytes(tag) if r == "ok" else URLError("refused") if r == "exc" else b"not an inventory\n"
+    uri = case["uri"]
+    if uri == "FILE":
+        uri = os.path.join(d, "f.inv")
+        with open(uri, "wb") as f:
+            f.write(inv_bytes("F"))
+    elif uri == "MISSING":
+        uri = os.path.join(d, "missing.inv")
+    fake = FakeUrlopen({uri: served(case["r1"], "U1"), uri + "/objects.inv": served(case["r2"], "U2")})
+    cli = run_cli([uri, "-f", "json"], urlopen=fake)
+    cli_obs = ["ok", cli[1]["name"], cli[1]["base_url"]] if cli[0] == "ok" else ["exc"]
+    fake2 = FakeUrlopen({uri: served("ok", "U")})
+    old = I.urlopen
+    I.urlopen = fake2
+    try:
+        try:
+            fo = I.fetch_inventory(uri, base_url="B")
+            fetch_obs = [fo["name"], fo["base_url"]]
+        except Exception as e:
+            fetch_obs = ["exc"]
+    finally:
+        I.urlopen = old
+    return uri, cli_obs, fetch_obs, fake.calls
+
+
+def expected_fetch(uri, case, file_exists):
+    """what the docstrings promise: a URL is fetched with urlopen (the URL itself, then URL + /objects.inv), anything else is opened"""
+    http = uri.startswith("http://") or uri.startswith("https://")
+    if not http:
+        return (["ok", "F", None], ["F", "B"]) if file_exists else (["exc"], ["exc"])
+    if case["r1"] == "ok":
+        cli = ["ok", "U1", uri.rsplit("/", 1)[0]]
+    elif case["r2"] == "ok":
+        cli = ["ok", "U2", uri]
+    else:
+        cli = ["exc"]
+    return cli, ["U", "B"]
+
+
+def check_fetch_case(ctx, case, d):
+    uri, cli_obs, fetch_obs, calls = fetch_outcome(case, d)
+    want_cli, want_fetch = expected_fetch(uri, case, case["uri"] == "FILE")
+    if cli_obs != want_cli or fetch_obs != want_fetch:
+        ctx.fail("cli:fetch-dispatch", case, "inventory_cli / fetch_inventory did not take the documented source or base URL",
+                 expected=repr((want_cli, want_fetch)), observed=repr((cli_obs, fetch_obs, calls)))
+        return False
+    return True
+
+
+def corr_cli(ctx):
+    from lib.impl import scratch_dir
+    from myst_parser import inventory as I
+    rng = ctx.rng
+    reqs, cases, exps = [], [], []
+    with scratch_dir() as d:
+        import os
+        path = os.path.join(d, "objects.inv")
+        for i in range(ctx.budget(400, 4000, 4000)):
+            case = gen_cli_case(rng)
+            data = bytes.fromhex(case["data"])
+            with open(path, "wb") as f:
+                f.write(data)
+            try:
+                inv = I.load(io.BytesIO(data))
+            except Exception:
+                continue
+            got = run_cli(cli_argv(path, case))
+            reqs.append("\t".join(["cli", enc_str(case["q"][0]), enc_str(case["q"][1]), enc_str(case["q"][2]),
+                                   enc_ostr(case["loc"]), "~"] + enc_inv(inv)))
+            cases.append(case)
+            exps.append(obs_of_invdict(got[1]) if got[0] == "ok" else got)
+            if i == 0:
+                ctx.sample({"cli_argv": cli_argv("<scratch>/objects.inv", case), "output": repr(got)[:300]})
+        for i in range(ctx.budget(150, 600, 600)):
+            case = gen_fetch_case(rng)
+            uri, cli_obs, fetch_obs, calls = fetch_outcome(case, d)
+            exists = case["uri"] == "FILE"
+            reqs.append("\t".join(["clifetch", enc_str(uri), "ok" if case["r1"] == "ok" else "exc",
+                                   "ok" if case["r2"] == "ok" else "exc", "ok" if exists else "exc"]))
+            cases.append(dict(case, what="cli"))
+            exps.append(cli_obs)
+            reqs.append("\t".join(["fetch", enc_str(uri)]))
+            cases.append(dict(case, what="fetch"))
+            exps.append(fetch_obs)
+    outs = model_run_parallel(PID, reqs)
+    for c, e, o in zip(cases, exps, outs):
+        ctx.corr_cases += 1
+        if c["kind"] == "cli":
+            ctx.count("corr:cli:" + c["fmt"])
+            got = dec_inv(o)
+            if e[0] == "ok" and e[4]:
+                ctx.nontriv(("cli", c["data"][:2000], tuple(c["q"]), c["loc"]))
+        elif c["what"] == "cli":
+            ctx.count("corr:cli-fetch")
+            ctx.nontriv(("clifetch", c["uri"], c["r1"], c["r2"]))
+            if o.startswith("!"):
+                got = ["exc"]
+            else:
+                f = o.split(" ")
+                got = ["ok", dec_str(f[1]), None if f[2] == "~" else dec_str(f[2])]
+        else:
+            ctx.count("corr:fetch_inventory")
+            # the model names the opener; the implementation result shows it through the project name served
+            got = ["exc"] if e == ["exc"] and dec_str(o) == "F" else [dec_str(o), "B"]
+        if got != e:
+            ctx.disagree("inventory_cli" if c["kind"] == "cli" or c.get("what") == "cli" else "fetch_inventory", c, repr(e)[:800], repr(got)[:800])
+
+
 def corr(ctx):
     if not ctx.have_runner:
         return
@@ -782,6 +1041,7 @@ def corr(ctx):
     corr_loads(ctx)
     corr_sphinx_model(ctx)
     corr_convert(ctx)
+    corr_cli(ctx)
 
 
 # ------------------------------------------------------------------ direct property oracle
@@ -832,6 +1092,10 @@ def check_case(ctx, case):
                      expected=repr(inv)[:1200], observed=repr(back)[:1200])
             return False
         return True
+    if k in ("cli", "fetch"):
+        from lib.impl import scratch_dir
+        with scratch_dir() as d:
+            return check_cli_case(ctx, case, d) if k == "cli" else check_fetch_case(ctx, case, d)
     if k == "badline":
         with_bad = bytes.fromhex(case["data"])
         without = bytes.fromhex(case["without"])
@@ -924,7 +1188,7 @@ def known_open_cases():
 def search(ctx):
     rng = ctx.rng
     for c in ctx.suspects[:300]:
-        if c and c.get("kind") in ("chunk", "sphinx", "roundtrip", "badline"):
+        if c and c.get("kind") in ("chunk", "sphinx", "roundtrip", "badline", "cli", "fetch"):
             ctx.search_cases += 1
             check_case(ctx, c)
         elif c and c.get("kind") == "load":
@@ -995,6 +1259,20 @@ def search(ctx):
         if i == 0:
             ctx.sample({k: v for k, v in case.items() if k != "without"})
         check_case(ctx, case)
+    # (e) glue: inventory_cli output = loaded entries filtered by the documented semantics; source / base URL dispatch
+    search_cli(ctx)
+
+
+def search_cli(ctx):
+    from lib.impl import scratch_dir
+    rng = ctx.rng
+    with scratch_dir() as d:
+        for i in range(ctx.budget(400, 4000, 8000)):
+            ctx.search_cases += 1
+            check_cli_case(ctx, gen_cli_case(rng), d)
+        for i in range(ctx.budget(100, 500, 1000)):
+            ctx.search_cases += 1
+            check_fetch_case(ctx, gen_fetch_case(rng), d)
 
 
 def replay(ctx, data):
@@ -1007,16 +1285,22 @@ def replay(ctx, data):
     return 0 if ok else 1
 
 
-LEVEL_TEXT = ("Proof (Coq, 15 theorems, all closed under the global context): for every list of read() results, load() equals load() "
+LEVEL_TEXT = ("Proof (Coq, 25 theorems, all closed under the global context): for every list of read() results, load() equals load() "
               "of the same bytes in one read - header lines, carried-over buffer, compressed body - except that for a stream zlib "
               "itself rejects every chunking fails with zlib.error or UnicodeDecodeError (C18_chunking_independent, "
               "C18_any_two_chunkings, witness C18_chunking_exception_class_refuted); readline/load never exhaust their fuel "
               "(C18_readline_terminates, C18_load_terminates); whenever Sphinx's loads accepts the bytes, MyST's load accepts them "
               "under every chunking with extensionally the same entries - names with spaces, '$', '-', priorities, duplicates, v1 and "
-              "v2 - and the same project/version for plain headers (C18_agrees_with_sphinx; premises: header lines valid UTF-8, no "
-              "line separator other than \\n in the body: C18_nosep_needed is the recorded open finding); a malformed v2 line / blank "
-              "v1 line is skipped and the rest of the file loads as without it, a short v1 line fails the load "
-              "(C18_bad_line_isolated, C18_blank_line_skipped_v1, C18_short_line_fails_v1); from_sphinx(to_sphinx inv) = inv for "
+              "v2 - and the same project/version for plain headers (C18_agrees_with_sphinx; premises: header lines valid UTF-8, \\n the only line "
+              "separator in the body except \\r directly before \\n (CR LF files covered); the remaining disagreement is characterised: "
+              "for every text Sphinx's entries are MyST's entries of the text with all separators normalised to \\n "
+              "(C18_sphinx_lines_normalised, C18_separator_characterisation), every separator other than \\n does disagree "
+              "(C18_separator_family_refuted, C18_nosep_needed = the recorded open finding); a malformed v2 line / blank "
+              "v1 line is skipped and the rest of the file loads as without it under every chunking, a short v1 line fails the load "
+              "(C18_bad_line_isolated, C18_bad_line_isolated_any_chunking, C18_blank_line_skipped_v1, C18_short_line_fails_v1); the "
+              "glue: fetch/CLI source and base-URL dispatch (C18_fetch_dispatch), every loaded inventory has unique keys and the CLI "
+              "loop keeps exactly the entries matching the four filters (C18_load_unique_keys, C18_cli_filter_exact); posixpath.join "
+              "case by case (C18_posixpath_join); from_sphinx(to_sphinx inv) = inv for "
               "well-formed inv and every well-formedness condition is needed (C18_sphinx_roundtrip, C18_roundtrip_conditions_needed); "
               "both loaders use the same regenerated literals (C18_same_literals); the oracle hypotheses are satisfiable, the UTF-8 "
               "ones are proved for the executable decoder (C18_oracles_satisfiable). The model (coq/InvLoad) is tied to inventory.py "
